@@ -130,3 +130,58 @@ mut('c14-mem-subcache-shared', 'C14', 'R14.4', ('cache.py', "        if name not
 ben('ben-c14-value-rename', ['C14', 'C15'], ('cache.py', "            value = computer()\n            self.save_value(filepath, key, value)\n        return value", "            computed = computer()\n            self.save_value(filepath, key, computed)\n        return computed"))
 ben('ben-c14-keycheck-eq', ['C14'], ('cache.py', "            if key != loaded['key']:\n                raise CacheException(\n                    f'The expected cache key {key} does not match to the retrieved one {loaded[\"key\"]}'\n                )\n",
                                       "            if not (loaded['key'] == key):\n                raise CacheException(\n                    f'The expected cache key {key} does not match to the retrieved one {loaded[\"key\"]}'\n                )\n"))
+
+# ---------------------------------------------------------------------------------------------- C07
+mut('c07-forced-ignored', 'C07', 'R07.1', ('task.py', "self._data.exists() and not self._forced:", "self._data.exists():"))
+mut('c07-force-keeps-memory', 'C07', 'R07.2', ('task.py', "        self._forced = True\n        self._data = None\n        return self", "        self._forced = True\n        return self"))
+mut('c07-force-flag-only-with-delete', 'C07', 'R07.2', ('task.py', "            if data.exists():\n                data.delete()\n\n        self._forced = True", "            if data.exists():\n                data.delete()\n                self._forced = True\n            else:\n                return self\n        self._forced = True"))
+mut('c07-delete-unconditional', 'C07', 'R07.2', ('task.py', "        if delete_data:\n            data = self._data_without_value", "        if True:\n            data = self._data_without_value"))
+mut('c07-ancestors', 'C07', 'R07.3', ('chain.py', "        descendants = nx.descendants(self.graph, task)", "        descendants = nx.ancestors(self.graph, task)"))
+mut('c07-edge-reversed', 'C07', 'R07.3', ('chain.py', "                G.add_edge(input_task, task)", "                G.add_edge(task, input_task)"))
+mut('c07-required-descendants', 'C07', 'R07.3', ('chain.py', "        ancestors = nx.ancestors(self.graph, task)", "        ancestors = nx.descendants(self.graph, task)"))
+mut('c07-has-path-swapped', 'C07', 'R07.3', ('chain.py', "return nx.has_path(self.graph, dependency_task, task)", "return nx.has_path(self.graph, task, dependency_task)"))
+mut('c07-exclude-self', 'C07', 'R07.4', ('chain.py', "forced_tasks |= self.dependent_tasks(task, include_self=True)", "forced_tasks |= self.dependent_tasks(task)\n            forced_tasks.add(task) if isinstance(task, Task) else None"))
+mut('c07-delete-flag-dropped', 'C07', 'R07.4', ('chain.py', "            task.force(delete_data=delete_data)", "            task.force()"))
+mut('c07-recompute-named-only', 'C07', 'R07.4', ('chain.py', "            for task in list(forced_tasks)[::-1]:\n                _ = task.value", "            for task in tasks:\n                _ = self.get_task(task).value"))
+mut('c07-only-last-closure', 'C07', 'R07.4', ('chain.py', "            forced_tasks |= self.dependent_tasks(task, include_self=True)", "            forced_tasks = self.dependent_tasks(task, include_self=True)"))
+mut('c07-force-skips-in-memory', 'C07', 'R07.4', ('chain.py', "        for task in forced_tasks:\n            task.force(delete_data=delete_data)", "        for task in forced_tasks:\n            if task.data_path is not None:\n                task.force(delete_data=delete_data)"))
+mut('c07-delete-dir-of-task', 'C07', 'R07.5', ('data.py', "    def delete(self):\n        self.path.unlink()", "    def delete(self):\n        shutil.rmtree(self._base_dir)"))
+mut('c07-continues-delete-keeps-result', 'C07', 'R07.5', ('data.py', "    def delete(self):\n        shutil.rmtree(str(self.path))\n        shutil.rmtree(str(self.tmp_path))", "    def delete(self):\n        shutil.rmtree(str(self.tmp_path))"))
+mut('c07-multichain-first-only', 'C07', 'R07.4', ('chain.py', "        for chain in self.chains.values():\n            chain.force(tasks, **kwargs)", "        for chain in self.chains.values():\n            chain.force(tasks)"))
+
+ben('ben-c07-update-idiom', ['C07', 'C04'], ('chain.py', "            forced_tasks |= self.dependent_tasks(task, include_self=True)", "            forced_tasks.update(self.dependent_tasks(task, include_self=True))"))
+ben('ben-c07-sorted-recompute', ['C07', 'C04'], ('chain.py', "            for task in list(forced_tasks)[::-1]:", "            for task in list(forced_tasks):"))
+ben('ben-c07-force-order', ['C07'], ('task.py', "        self._forced = True\n        self._data = None\n        return self", "        self._data = None\n        self._forced = True\n        return self"))
+
+# ---------------------------------------------------------------------------------------------- C06
+mut('c06-json-load-stdlib', 'C06', 'R06.1', ('data.py', "        self._value = json.load(self.path.open())\n        return self._value\n\n\nclass NumpyData", "        import pickle as _p\n        self._value = _p.load(self.path.open('rb'))\n        return self._value\n\n\nclass NumpyData"))
+mut('c06-load-reads-tmp', 'C06', 'R06.1', ('data.py', "        self._value = np.load(str(self.path))\n        return self._value\n\n\nclass ListOfNumpyData", "        self._value = np.load(str(self.tmp_path))\n        return self._value\n\n\nclass ListOfNumpyData"))
+mut('c06-figure-text-mode', 'C06', 'R06.1', ('data.py', "        self._value = pickle.load(self.path.open('rb'))", "        self._value = pickle.load(self.path.open('r'))"))
+mut('c06-jsoncache-encoding', 'C06', 'R06.1', ('cache.py', "        with filepath.open('r', encoding='utf-8') as file:", "        with filepath.open('r', encoding='latin-1') as file:"))
+mut('c06-jsonl-reader-stdjson', 'C06', 'R06.1', ('utils/io.py', "            yield json.loads(row.strip())", "            yield orig_json.loads(row.strip())"))
+mut('c06-jsonl-no-newline', 'C06', 'R06.1', ('utils/io.py', "            f.write(json.dumps(j) + '\\n')", "            f.write(json.dumps(j))"))
+mut('c06-load-deletes', 'C06', 'R06.2', ('data.py', "        self._value = list(iter_json_file(self.path))\n        return self._value", "        self._value = list(iter_json_file(self.path))\n        self.path.unlink()\n        return self._value"))
+mut('c06-exists-creates', 'C06', 'R06.2', ('data.py', "class FileData(Data, abc.ABC):", "class FileData(Data, abc.ABC):\n    def load_run_info(self):\n        self.run_info_path.touch()\n        return super().load_run_info()\n"))
+mut('c06-value-truthiness', 'C06', 'R06.3', ('data.py', "        if not hasattr(self, '_value') or self._value is None:", "        if not hasattr(self, '_value') or not self._value:"))
+mut('c06-novalue-eq', 'C06', 'R06.3', ('cache.py', "            if store_cache_value is NO_VALUE:\n                computer", "            if store_cache_value == NO_VALUE:\n                computer"))
+mut('c06-lexicographic-sort', 'C06', 'R06.4', ('data.py', "        for file in sorted(self.path.glob('*.npy'), key=lambda f: int(f.name.split('.')[0])):", "        for file in sorted(self.path.glob('*.npy')):"))
+mut('c06-unsorted-glob', 'C06', 'R06.4', ('data.py', "        for file in sorted(self.path.glob('*.npy'), key=lambda f: int(f.name.split('.')[0])):", "        for file in self.path.glob('*.npy'):"))
+mut('c06-generated-not-list', 'C06', 'R06.4', ('data.py', "        self._value = list(iter_json_file(self.path))\n        return self._value", "        self._value = iter_json_file(self.path)\n        return self._value"))
+
+ben('ben-c06-load-local', ['C06'], ('data.py', "        self._value = np.load(str(self.path))\n        return self._value\n\n\nclass ListOfNumpyData", "        value = np.load(str(self.path))\n        self._value = value\n        return value\n\n\nclass ListOfNumpyData"))
+ben('ben-c06-json-with', ['C06'], ('data.py', "        self._value = json.load(self.path.open())\n        return self._value\n\n\nclass NumpyData", "        with self.path.open() as f:\n            self._value = json.load(f)\n        return self._value\n\n\nclass NumpyData"))
+
+# ---------------------------------------------------------------------------------------------- C20
+mut('c20-prefix-part-dropped', 'C20', 'R20.3', ('utils/migration.py', "context=config.context, part=config._part\n", "context=config.context\n"))
+mut('c20-move-instead-of-copy', 'C20', 'R20', ('utils/migration.py', "                copyfile(old_task.data_path, new_task.data_path)", "                import shutil\n                shutil.move(old_task.data_path, new_task.data_path)"))
+mut('c20-dry-ignored', 'C20', 'R20.2', ('utils/migration.py', "        if dry:\n            print('    to copy')\n        else:", "        if False:\n            print('    to copy')\n        else:"))
+mut('c20-copy-reversed', 'C20', 'R20', ('utils/migration.py', "                copytree(old_task.data_path, new_task.data_path)", "                copytree(new_task.data_path, old_task.data_path)"))
+mut('c20-overwrite-existing', 'C20', 'R20.2', ('utils/migration.py', "            print(f'    target already exists')\n            continue", "            print(f'    target already exists')"))
+mut('c20-context-dropped', 'C20', 'R20.3', ('utils/migration.py', "global_vars=config.global_vars, context=config.context, part=config._part", "global_vars=config.global_vars, part=config._part"))
+mut('c20-pair-by-slugname', 'C20', 'R20.4', ('utils/migration.py', "    old_chain = {t.fullname: t for t in", "    old_chain = {t.slugname: t for t in"))
+mut('c20-has-data-via-value', 'C20', 'R20.4', ('utils/migration.py', "        if not old_task.has_data:", "        if old_task.value is None:"))
+mut('c20-marker-in-source', 'C20', 'R20.1', ('utils/migration.py', "            print('    copied')", "            print('    copied')\n            (old_task.data_path.parent / 'MIGRATED').touch()"))
+mut('c20-run-info-copy-from-new', 'C20', 'R20', ('utils/migration.py', "            print('    copied')", "            copyfile(new_task._data_without_value.run_info_path, old_task._data_without_value.run_info_path)\n            print('    copied')"))
+
+ben('ben-c20-locals', ['C20'], ('utils/migration.py', "                copyfile(old_task.data_path, new_task.data_path)", "                source, destination = old_task.data_path, new_task.data_path\n                copyfile(source, destination)"))
+ben('ben-c20-dry-flip', ['C20'], ('utils/migration.py', "        if dry:\n            print('    to copy')\n        else:\n            print('    copying')", "        if dry:\n            print('    to copy')\n            continue\n        if True:\n            print('    copying')"))
